@@ -3,6 +3,7 @@
 # Applies a patch (or, with a commit id, the reverse of that commit) to /repo's working
 # tree, runs the quick checks of the given properties, and restores /repo afterwards.
 set -u
+export VERIF_NO_EVIDENCE=1
 REV=""
 if [ "$1" = "-R" ]; then REV="-R"; shift; fi
 SRC="$1"; shift
